@@ -217,6 +217,7 @@ func (fr *Frame) callFunction(fn *ssa.Function, bindings []Value, args []Value, 
 	}
 	// 4. inert packages
 	if isInertPkg(pp) {
+		fr.lockEffect(full, args, st)
 		return fr.inertResult(resT, st)
 	}
 	if v, ok := fr.knownExternal(fn, full, args, st, pc, pos, resT); ok {
@@ -605,4 +606,34 @@ func patternSafe(t string) bool {
 		}
 	}
 	return true
+}
+
+// lockEffect keeps a ghost hold count per mutex location for sync.(RW)Mutex Lock/Unlock calls. At every
+// return point of a unit the count of each mutex the function touched must equal its value at entry
+// ("lock-balance" obligation): a path that returns with a mutex still held blocks every later caller - the
+// "never hang" half of C05 for code that guards shared state with a mutex.
+func (fr *Frame) lockEffect(full string, args []Value, st *State) {
+	d := 0
+	switch full {
+	case "(*sync.Mutex).Lock", "(*sync.RWMutex).Lock", "(*sync.RWMutex).RLock":
+		d = 1
+	case "(*sync.Mutex).Unlock", "(*sync.RWMutex).Unlock", "(*sync.RWMutex).RUnlock":
+		d = -1
+	default:
+		return
+	}
+	if len(args) == 0 {
+		return
+	}
+	p, ok := args[0].(PtrV)
+	if !ok {
+		return
+	}
+	key := fmt.Sprintf("lock|%s|%v", p.Base.S, p.Path)
+	u := fr.u
+	cur, ok := st.ghost[key]
+	if !ok {
+		cur = u.ghostInit(key)
+	}
+	st.ghost[key] = u.c.Def("held", Add(cur, IntLit(int64(d))))
 }
